@@ -9,6 +9,8 @@ from corrolint import flow
 from corrolint.facts import op_place, op_const, op_local
 from . import common as cm
 from . import sqlinv, tx
+from corrolint import sqlmini
+import itertools
 
 TRACKED = {"crsql_changes", "__corro_bookkeeping_gaps", "__corro_seq_bookkeeping", "__corro_buffered_changes", "__corro_state", "__corro_schema", "__corro_members"}
 RUNTIME_CRATES = ("klukai_agent", "klukai_types", "corrosion")
@@ -144,6 +146,72 @@ def reload_(ctx):
     R.require("crsql_db_versions" in reads, "max-from-crsql", b.where(), "the head version is read from cr-sqlite's own crsql_db_versions (written by the data transaction itself)",
               fail_msg="from_conn no longer derives the head from crsql_db_versions")
 
+    # the reload is complete: every row of the actor is selected, every selected row is consumed, the loops end only at exhaustion
+    sites = [s for s in sqlinv.inventory(F, [b]) if s.verb == "SELECT" and s.reads & (need | {"crsql_db_versions"})]
+    if R.floor(len(sites), 3, "reload-selects", "reload SELECTs in from_conn"):
+        for s in sorted(sites, key=lambda x: x.call.line):
+            tbl = sorted(s.reads & (need | {"crsql_db_versions"}))[0]
+            try:
+                n = [0]
+                w = re.sub(r"\?(?!\d)", lambda m: (n.__setitem__(0, n[0] + 1) or "?%d" % n[0]), sqlmini.where_clause(s.sql))
+                e = sqlmini.parse_bool(w)
+                names = sorted(sqlmini.names(e))
+                key = [x for x in names if x in ("site_id", "actor_id")]
+                params = [x for x in names if x.startswith("?") or x.startswith(":")]
+                bad = None
+                if len(key) != 1 or not params:
+                    bad = "no actor-key column / parameter in WHERE"
+                else:
+                    # for every row of the actor (key == first parameter) the predicate must hold, whatever the other columns / parameters are
+                    for vals in itertools.product(range(0, 3), repeat=len(names)):
+                        env = dict(zip(names, vals))
+                        if env[key[0]] != env[params[0]]:
+                            continue
+                        if not sqlmini.ev(e, env):
+                            bad = "row %s excluded" % {k: v for k, v in env.items()}
+                            break
+                R.require(bad is None, "selects-all-rows:" + tbl, s.call.where(), "WHERE %s keeps every row of the actor" % " ".join(w.split()),
+                          fail_msg="the reload of %s filters the actor's rows (WHERE %s; %s): durable bookkeeping is silently dropped at restart and the version is then advertised as held / never re-requested" % (tbl, " ".join(w.split()), bad))
+            except sqlmini.ParseError as ex_:
+                R.fail("selects-all-rows:" + tbl, s.call.where(), "cannot parse the reload WHERE clause (%s): %s" % (ex_, s.sql[:120]))
+        nxt = [c for c in b.calls if c.name() == "next" and "rusqlite::row::Rows" in (c.self_ty or c.f)]
+        if not nxt:
+            nxt = [c for c in b.calls if c.f.startswith("rusqlite::row::Rows") and c.name() == "next"]
+        fin = [c for c in b.calls if c.f.endswith("BookedVersions::commit_snapshot")]
+        if R.floor(len(nxt), 2, "reload-loops", "Rows::next loops in from_conn") and R.anchor(fin, "commit_snapshot", "bv.commit_snapshot(snap) at the end of from_conn"):
+            sinks = {0: [c for c in b.calls if c.f.endswith("BookedVersions::insert_partial")],
+                     1: [c for c in b.calls if re.search(r"RangeInclusiveSet::<T.*>::insert$", c.f)]}
+            for i, c in enumerate(sorted(nxt, key=lambda x: x.line)[:2]):
+                # rows.next()? : the Option is the Continue payload of the `?`
+                te = flow.ok_edge_of(b, c)
+                start = te[0][1] if te else b.term(c.bb).get("tgt")
+                opt_sw = [(sw, m, other) for sw, m, other in _option_switches(b) if sw in b.reachable(start) and b.dominates(c.bb, sw)]
+                opt_sw = sorted(opt_sw, key=lambda x: x[0])[:1]
+                if not R.anchor(opt_sw, "loop#%d.match" % i, "match on the Option returned by rows.next()?"):
+                    continue
+                sw, m, other = opt_sw[0]
+                none_e, some_t = (sw, m.get(0, other)), m.get(1, other)
+                leak = fin[0].bb in b.reachable(c.bb, no_edges=[none_e])
+                R.require(not leak, "loop#%d.until-exhausted" % i, c.where(), "the reload loop ends only when rows.next() returns None",
+                          fail_msg="the reload loop can be left (reaching commit_snapshot) while rows remain: later rows of the actor are not reloaded")
+                sk = sinks[i]
+                if R.anchor(sk, "loop#%d.sink" % i, "the call recording a reloaded row"):
+                    drop = b.can_reach(some_t, c.bb, no_nodes=tuple(x.bb for x in sk))
+                    R.require(not drop, "loop#%d.row-recorded" % i, sk[0].where(), "every reloaded row reaches %s" % sk[0].name(),
+                              fail_msg="a reloaded row can be skipped without being recorded (path from Some(row) back to rows.next() avoiding %s)" % sk[0].name())
+
+
+def _option_switches(b):
+    out = []
+    for bb in b.live_blocks():
+        t = b.term(bb)
+        if t["t"] != "sw":
+            continue
+        for s_ in b.blocks[bb]["s"]:
+            if s_[0] == "A" and s_[2][0] == "disc" and op_local(t["d"]) == s_[1][0] and re.search(r"core::option::Option<&?rusqlite::row::Row", b.ty(s_[2][1][0])):
+                out.append((bb, {v: x for v, x in t["targets"]}, t["else"]))
+    return out
+
 
 def own(ctx):
     F, G = ctx.F, ctx.G
@@ -183,6 +251,37 @@ def others(ctx):
     sends = [c for b in fam for c in b.calls if re.search(r"CorroSender::<T>::send$", c.f) and "(klukai_types::actor::ActorId, klukai_types::base::CrsqlDbVersion)" in c.self_ty]
     R.require(bool(sends), "reschedule", main.where(), "fully buffered versions are re-sent to tx_apply at startup (guard checked by C03.trigger)",
               fail_msg="startup no longer re-schedules fully buffered versions for application")
+    # ... and they are re-sent *whenever* they have no gaps: the zero-gaps edge must reach the creation of the sending task
+    from .C03 import _gap_count_switch, _edge_means_zero
+    for c in sends:
+        b = c.body
+        par = F.get(b.parent) if b.parent else None
+        if par is None:
+            continue
+        created = None
+        for bb, bl in enumerate(par.blocks):
+            for s_ in bl["s"]:
+                if s_[0] == "A" and s_[2][0] == "agg" and isinstance(s_[2][1], dict) and (s_[2][1].get("coroutine") == b.id or s_[2][1].get("closure") == b.id):
+                    created = bb
+        if created is None or par.id != main.id:
+            continue
+
+        class _S:
+            pass
+        st = _S()
+        st.bb = created
+        sws = _gap_count_switch(par, st)
+        if not R.anchor(sws, "reschedule.gap-check", "gaps(..).count() test before re-scheduling at startup"):
+            continue
+        sw = sws[0]
+        zero_t = _edge_means_zero(sw)
+        # loop head: the partials iterator's next() dominating the count
+        heads = [x for x in par.calls if x.name() == "next" and "PartialVersion" in x.self_ty and par.dominates(x.bb, sw[0])]
+        if not R.anchor(heads, "reschedule.loop", "iteration over bv.partials"):
+            continue
+        miss = par.can_reach(zero_t, heads[-1].bb, no_nodes=(created,))
+        R.require(not miss, "reschedule.whenever-complete", par.where(sw[0]), "every reloaded partial with zero gaps reaches the task that sends it to tx_apply",
+                  fail_msg="a fully buffered, unapplied version found at startup can be passed over without scheduling its application (path from the zero-gaps edge to the next partial avoiding the send task)")
     # apply loop is spawned
     spawned = [c for c in main.calls if "apply_fully_buffered_changes_loop" in (c.t.get("r") or c.f)]
     R.require(bool(spawned), "apply-loop", main.where(), "apply_fully_buffered_changes_loop is started", fail_msg="the buffered-changes apply loop is no longer started")
